@@ -52,6 +52,7 @@ CONTENT = {
     'S3': ('simple', 4, [(1, 2), (2, 3), (3, 4), (1, 4)]),    # 4-cycle (even colouring sat)
     'S4': ('simple', 3, [(1, 3)]),
     'S12': ('simple', 12, [(1, 12), (2, 11), (3, 10), (10, 11), (11, 12), (1, 2)]),
+    'S0': ('simple', 0, []),                                   # the graph without vertices
     # dags (n, edges u<v)
     'D1': ('dag', 3, [(1, 3), (2, 3)]),
     'D2': ('dag', 4, [(1, 2), (1, 3), (2, 4), (3, 4)]),
@@ -1144,6 +1145,12 @@ class _Iso(Sub):
             for g2 in SMALL_SIMPLE:
                 yield 'G1-e-G2', [], [g1, g2], None
         yield 'G1-e-G2', [], [_file('simple', 'S1', 'gml'), _stdin('simple', 'S1', 'kthlist')], None
+        # a second graph without vertices is still a second graph
+        for fmt in ('gml', 'kthlist', 'dimacs'):
+            yield 'G1-e-G2', [], [SMALL_SIMPLE[0], _file('simple', 'S0', fmt)], None
+            yield 'G1-e-G2', [], [_file('simple', 'S0', fmt), SMALL_SIMPLE[1]], None
+        yield 'G1-e-G2', [], [_file('simple', 'S0', 'gml'), _file('simple', 'S0', 'kthlist', True)], None
+        yield 'G1', [], [_file('simple', 'S0', 'kthlist')], None
         yield 'G1-e-G2', [], [_stdin('simple', 'S3', 'dimacs'), _file('simple', 'S3', 'gml', True)], None
 
     def sweep(self, tier):
